@@ -117,9 +117,9 @@ for line in open(sys.argv[3]):
             print('R - ok')
         elif cmd == 'CKS':
             checksum._reg.clear()
-            if parts[1] == '1':
+            if parts[1] != '0':
                 for a in schema['algs']:
-                    checksum._reg[a['name']] = checksum.TestService(a['type'])
+                    checksum._reg[a['name']] = checksum.TestService(a['type'], parts[1] == '2')
             print('R - ok')
         elif cmd == 'ENC':
             obj = build(parts[2], Toks(parts[3] if len(parts) > 3 else ''))
